@@ -713,7 +713,13 @@ impl Property for C16 {
                 1 => Some(vec!["c".to_string(), ".h".to_string()]),
                 _ => Some(vec![".c".to_string()]),
             };
-            t.input.push(Res::Paths { paths: vec![d], extensions: ext });
+            if rng.chance(25) {
+                // the same directory declared twice with different filters
+                t.input.push(Res::Paths { paths: vec![d.clone()], extensions: Some(vec!["c".to_string()]) });
+                t.input.push(Res::Paths { paths: vec![d], extensions: Some(vec![".h".to_string()]) });
+            } else {
+                t.input.push(Res::Paths { paths: vec![d], extensions: ext });
+            }
             if rng.chance(60) {
                 let out = format!("out/{}.out", name);
                 t.output.push(Res::Paths { paths: vec![out.clone()], extensions: None });
